@@ -17,7 +17,7 @@ int main(void)
     }
     struct visits o; memset(&o, 0, sizeof o);
     visit(kind, n, (u32*)v, (void*)&o);
-    int rev = kind >= 10;
+    int rev = kind >= 10 && kind < 20;
     CHECK(o.n == n, "C20: the loop body runs exactly once per element (also for empty ranges)");
     /* expected order */
     i32 want[4];
